@@ -22,7 +22,9 @@ import (
 	"math/rand"
 	"net/http"
 	"net/http/httptest"
+	"os"
 	"os/exec"
+	"path/filepath"
 	"strconv"
 	"strings"
 	"sync"
@@ -315,7 +317,14 @@ func runHostilePool(args []string) {
 	rng := rand.New(rand.NewSource(seed))
 	names := newNames(seed)
 	for _, minbal := range []string{"off", "1 gwei"} {
-		p := startPool(args[0], "--contract.min-balance", minbal)
+		extra := []string{"--contract.min-balance", minbal}
+		if minbal != "off" {
+			// the second pool runs on the persistent store (the default of the binary), the first on the memory store
+			dbdir := filepath.Join(filepath.Dir(args[3]), fmt.Sprintf("hostile-db-%d", seed))
+			os.RemoveAll(dbdir)
+			extra = append(extra, "--store", "persist", "--datadir", dbdir)
+		}
+		p := startPool(args[0], extra...)
 		control, err := dialRaw(p.addr)
 		if err != nil {
 			fatal("control dial: %v", err)
